@@ -29,7 +29,13 @@ def synth_root_key(idx: int, hash_name: str = "SHA512", secret_alg: str = "DH", 
             params = gkdi.pack_dh_params(kl, p, g)
             pub = kl * 8
         priv = extra.get("priv_len", priv)
-    return cms.RootKey(key=seed, root_key_id=uuid.UUID(bytes=hashlib.md5(seed).digest()), hash_name=hash_name, secret_alg=secret_alg,
+    rkid = uuid.UUID(bytes=hashlib.md5(seed).digest())
+    if extra and "rkid_int" in extra:
+        rkid = uuid.UUID(int=extra["rkid_int"])
+    if extra and extra.get("key_edges"):  # msKds-RootKeyData is raw bytes: any byte value may come first or last
+        a, b_ = extra["key_edges"]
+        seed = bytes([a]) + seed[1:-1] + bytes([b_])
+    return cms.RootKey(key=seed, root_key_id=rkid, hash_name=hash_name, secret_alg=secret_alg,
                        secret_params=params, private_key_length=priv, public_key_length=pub)
 
 
